@@ -146,6 +146,18 @@ func TestVerifC10(t *testing.T) {
 			}
 			reqs = append(reqs, rq)
 		}
+		if hi < 2 {
+			// corpus (not left to the random draw): cookies set, then deleted by the backend (Max-Age=0, Expires in the past),
+			// then looked at again on the same and on a deeper path
+			host := []string{"app.example.com", "shop.co.uk"}[hi]
+			reqs = []verifC10Req{
+				{Use: -1, Host: host, Path: "/a", SetCookies: []string{"k1=v1", "k2=w; Path=/a", "k9=long; Max-Age=3600", "k3=x; Path=/a/b"}},
+				{Use: 0, Host: host, Path: "/a/b"},
+				{Use: 0, Host: host, Path: "/a", SetCookies: []string{"k1=; Max-Age=0", "k2=gone; Path=/a; Expires=Thu, 01 Jan 1970 00:00:00 GMT", "k9=; Max-Age=-1"}},
+				{Use: 0, Host: host, Path: "/a"},
+				{Use: 0, Host: host, Path: "/a/b"},
+			}
+		}
 		obs := verifRunHistory(h, cookieName, reqs, &cur, &mu)
 		out.emit(map[string]interface{}{"kind": "history", "index": hi, "limit": limit, "disable_ssl": hi%2 == 0, "reqs": reqs, "obs": obs})
 	}
@@ -164,6 +176,9 @@ func TestVerifC10Concurrent(t *testing.T) {
 		w.Header().Set("X-Verif-Backend-Cookies", strings.Join(parts, "\x1f"))
 		if v := r.URL.Query().Get("set"); v != "" {
 			w.Header().Add("Set-Cookie", "owner="+v)
+		}
+		if v := r.URL.Query().Get("name"); v != "" {
+			w.Header().Add("Set-Cookie", v+"=1")
 		}
 		w.WriteHeader(200)
 	})
@@ -232,5 +247,35 @@ func TestVerifC10Concurrent(t *testing.T) {
 		}
 	}
 	wg.Wait()
-	out.emit(map[string]interface{}{"kind": "concurrent", "sessions": nsess, "requests": nsess * 4 * rounds, "panics": panics, "mixed": mixed, "missing": missing, "leaked": leaked})
+	// first use of a session the cache does not know (a browser that still holds the cookie of a restarted agent, or an
+	// evicted session) by several requests at once: every cookie the backend sets in those responses must be in the
+	// session afterwards
+	lostFirstUse, roundsFirst := 0, 400
+	var lostExample []string
+	for r := 0; r < roundsFirst; r++ {
+		sid := fmt.Sprintf("unknown-session-%d", r)
+		const k = 6
+		for i := 0; i < k; i++ {
+			wg.Add(1)
+			go func(i int) {
+				defer wg.Done()
+				req := httptest.NewRequest("GET", fmt.Sprintf("http://app.example.com/?name=c%d", i), nil)
+				req.AddCookie(&http.Cookie{Name: cookieName, Value: sid})
+				do(req)
+			}(i)
+		}
+		wg.Wait()
+		req := httptest.NewRequest("GET", "http://app.example.com/after", nil)
+		req.AddCookie(&http.Cookie{Name: cookieName, Value: sid})
+		b := do(req).Header().Get("X-Verif-Backend-Cookies") + "\x1f"
+		for i := 0; i < k; i++ {
+			if !strings.Contains(b, fmt.Sprintf("c%d=1\x1f", i)) {
+				lostFirstUse++
+				if len(lostExample) < 3 {
+					lostExample = append(lostExample, fmt.Sprintf("round %d: cookie c%d set in a response is not in the session afterwards (backend saw %q)", r, i, strings.ReplaceAll(b, "\x1f", "; ")))
+				}
+			}
+		}
+	}
+	out.emit(map[string]interface{}{"kind": "concurrent", "first_use_rounds": roundsFirst, "cookies_lost_at_first_use": lostFirstUse, "first_use_examples": lostExample, "sessions": nsess, "requests": nsess * 4 * rounds, "panics": panics, "mixed": mixed, "missing": missing, "leaked": leaked})
 }
